@@ -68,7 +68,7 @@ def plan(tier):
 def floors(tier):
     k = 8 if tier == "thorough" else 1
     f = {"evaluations": 100 * k, "states:bmps": 5 * k, "states:ctm": 5 * k, "states:bp": 5 * k, "states:ntu": 10 * k,
-         "evolution_steps": 30 * k, "values_compared": 2000 * k, "values_nontrivial": 600 * k, "identity_measured": 100 * k,
+         "evolution_steps": 30 * k, "bp_read_transparency_compared": 20 * k, "values_compared": 2000 * k, "values_nontrivial": 600 * k, "identity_measured": 100 * k,
          "odd_operator_values": 300 * k, "reversed_order_values": 100 * k, "restriction_raises_counted": 20 * k,
          "metrics_checked": 300 * k, "fermionic_states": 40 * k, "measure_2site_subwindows": 20 * k,
          "measure_2site_subwindows_open_edge_3steps": 4 * k, "measure_nn_dict_order:reversed": 3 * k,
@@ -1139,6 +1139,18 @@ def battery_evol(ctx, idx, rng, nprng, lattices):
     d = dict(desc, env=envkind, which=which, method=method, gates=labels, initialization=init)
     tag = envkind + (":" + which if which else "")
     legs0 = {tuple(s): psi[s].get_legs() for s in g.sites()}
+    twin = None
+    if envkind == "BP":
+        # reads must be transparent: the same history without the reads (twin state and environment) has to give the same
+        # values afterwards (seeded C12_A3: measure_nn memoised the bond norm, update_bond_ did not drop it)
+        psi2 = psi.copy()
+        env2 = fpeps.EnvBP(psi2, which=which)
+        env2.iterate_(max_sweeps=8, diff_tol=1e-10)
+        ra, rb = rng.choice(F.even), rng.choice(F.even)
+        before = env.measure_nn(F.cat[ra], F.cat[rb])
+        env.measure_nn(F.cat["I"], F.cat["I"])
+        env.measure_1site(F.cat[ra])
+        twin = (psi2, env2, ra, rb, len(before))
     try:
         infos = fpeps.evolution_step_(env, gates, opts_svd={"D_total": BIG}, **ekw, **kw)
     except yastn.YastnError as e:
@@ -1171,6 +1183,26 @@ def battery_evol(ctx, idx, rng, nprng, lattices):
     te = max([float(i.truncation_error) for i in infos] + [0.0])
     if not ctx.margin("evolution:truncation_error", te, TRUNC_TOL):
         ctx.violation(f"evolution:truncation-error-reported:{tag}", f"evolution_step_ ({tag}) reported truncation_error {te:.3e} although nothing was truncated", d)
+    if twin is not None:
+        psi2, env2, ra, rb, nb = twin
+        fpeps.evolution_step_(env2, gates, opts_svd={"D_total": BIG}, **ekw, **kw)
+        for names in ((ra, rb), ("I", "I")):
+            v1 = env.measure_nn(F.cat[names[0]], F.cat[names[1]])
+            v2 = env2.measure_nn(F.cat[names[0]], F.cat[names[1]])
+            for bd in v2:
+                ctx.count("bp_read_transparency_compared")
+                dev = abs(complex(v1[bd]) - complex(v2[bd])) / max(1.0, abs(complex(v2[bd])))
+                if not ctx.margin("bp:read-transparency", dev, 1e-9):
+                    ctx.violation("bp:measure_nn-depends-on-earlier-reads", f"EnvBP ({which}): <{names[0]} {names[1]}> on bond {bd} after an "
+                                  f"evolution step is {v1[bd]!r} on the environment that was measured before the step and {v2[bd]!r} "
+                                  f"on a twin with the same history but no earlier reads", dict(d, bond=str(bd), ops=list(names)))
+        m1, m2 = env.measure_1site(F.cat[ra]), env2.measure_1site(F.cat[ra])
+        for st in m2:
+            ctx.count("bp_read_transparency_compared")
+            dev = abs(complex(m1[st]) - complex(m2[st])) / max(1.0, abs(complex(m2[st])))
+            if not ctx.margin("bp:read-transparency", dev, 1e-9):
+                ctx.violation("bp:measure_1site-depends-on-earlier-reads", f"EnvBP ({which}): <{ra}> at {st} after an evolution step is "
+                              f"{m1[st]!r} on the measured environment and {m2[st]!r} on the unmeasured twin", dict(d, site=str(st)))
     ctx.count("evolution_steps")
     ctx.count("evolution_truncations", len(infos))
     ctx.count("evol:" + tag)
